@@ -134,6 +134,17 @@ func busStartOpts(o server.Options, clients func(nc *nats.Conn) []client.RunStop
 		return b, fmt.Errorf("no root node: %v", err)
 	}
 	b.root = nodes[0]
+	// the instance writes its application version to the root node shortly after start; wait for it so that no case
+	// sees that write (and its rebroadcast) as part of its own history
+	for i := 0; i < 400; i++ {
+		if _, ok := nodes[0].Points.Find(data.PointTypeVersionApp, ""); ok {
+			break
+		}
+		time.Sleep(5 * time.Millisecond)
+		if ns, err := client.GetNodes(nc, "root", "all", "", false); err == nil && len(ns) > 0 {
+			nodes = ns
+		}
+	}
 	return b, nil
 }
 
